@@ -73,10 +73,10 @@ CHECKS = {
     },
     "C18": {
         "category": "proof",
-        "technique": "Kani loop-free harness on the real Drop impl under ghost mapping/descriptor-table contracts (frame condition over the syscall trace)",
-        "text": "Teardown sentence only: for symbolic ring sizes, flags and both mapping layouts (separate SQ/CQ rings; single-mmap where the CQ ring is the SQ ring mapping) dropping the ring issues exactly one munmap per distinct mapping with its exact address/length, exactly one close of the ring descriptor, and no other system call; unrelated mappings/descriptors stay. Loop-free over symbolic inputs, so complete for Drop. The first sentence of C18 (completion results equal the direct system call's) is kernel behaviour and is not decided — partial claim.",
-        "note": "Partial: sentence 1 not decided. Trusted: stub kernel's munmap/close contracts; verif-hooks constructor.",
-        "design_ref": "§4.C18",
+        "technique": "Kani loop-free harnesses on the compiled crate: (a) every SQE constructor, symbolic arguments, produced entry read back as raw bytes at the uapi offsets against the kernel ABI's per-opcode field use; (b) the real Drop impl under ghost mapping/descriptor-table contracts (frame condition over the syscall trace)",
+        "text": "Our side of sentence 1 and all of sentence 2. (a) For 18 SQE constructors (readv, writev, read/write_fixed, openat, close, statx, unlinkat, renameat, mkdirat, socket, connect, accept x2, timeout, sendmsg_raw, recvmsg, poll_add) and every argument value: the 64-byte entry carries the operation's uapi opcode, each argument of the equivalent system call in exactly the field the kernel reads it from (e.g. accept: addr = peer-address buffer, addr2 = pointer to its length; connect: addr2 = the length by value; renameat: len = new dirfd, addr2 = new path), the caller's sqe flags and user_data, and zero in every unused field. Loop-free over symbolic arguments: complete per constructor. (b) Teardown: for symbolic ring sizes, flags and both mapping layouts dropping the ring issues exactly one munmap per distinct mapping with its exact address/length, exactly one close of the ring descriptor, and no other system call. What the kernel does with a correctly encoded entry (one completion, same result as the direct call, batches) is kernel behaviour: not decided.",
+        "note": "Trusted: the ABI table in kani_ws/c18/src/lib.rs (offsets, opcode numbers, per-opcode field use from the uapi header / liburing), stub kernel's munmap/close contracts, verif-hooks constructor. Not covered: new_sendmsg (allocating guard), readv/writev offset semantics, upper half of poll32_events (uninitialised union padding). Found and repaired: accept's swapped addr/addr2 (68b2653), connect's length passed by pointer (80d0ace).",
+        "design_ref": "§4.C18, §9.7",
     },
     "C15": {
         "category": "proof",
